@@ -8,7 +8,10 @@ package interp
 // non-scalar differences) aborts the speculation and the If forks normally.
 
 import (
+	"fmt"
 	"go/types"
+	"os"
+	"strings"
 	"sync"
 
 	"golang.org/x/tools/go/ssa"
@@ -63,6 +66,18 @@ type pdomInfo struct {
 
 var pdomCache sync.Map // *ssa.Function -> *pdomInfo
 
+// endsInPanic reports whether the block terminates in a panic. Such blocks
+// are ignored when computing post-dominators, so that an error exit inside a
+// switch does not prevent merging at the statement's natural join; a side that
+// really reaches the panic aborts the speculation.
+func endsInPanic(b *ssa.BasicBlock) bool {
+	if len(b.Instrs) == 0 {
+		return false
+	}
+	_, ok := b.Instrs[len(b.Instrs)-1].(*ssa.Panic)
+	return ok
+}
+
 func pdomOf(fn *ssa.Function) *pdomInfo {
 	if v, ok := pdomCache.Load(fn); ok {
 		return v.(*pdomInfo)
@@ -74,7 +89,7 @@ func pdomOf(fn *ssa.Function) *pdomInfo {
 		if b == exit {
 			var out []int
 			for _, blk := range fn.Blocks {
-				if len(blk.Succs) == 0 {
+				if len(blk.Succs) == 0 && !endsInPanic(blk) {
 					out = append(out, blk.Index)
 				}
 			}
@@ -134,7 +149,7 @@ func pdomOf(fn *ssa.Function) *pdomInfo {
 		for _, s := range fn.Blocks[b].Succs {
 			out = append(out, s.Index)
 		}
-		if len(fn.Blocks[b].Succs) == 0 {
+		if len(fn.Blocks[b].Succs) == 0 && !endsInPanic(fn.Blocks[b]) {
 			out = append(out, exit)
 		}
 		return out
@@ -205,16 +220,29 @@ func (fr *frame) trySpeculate(instr *ssa.If, cond sym) (didMerge bool, returned 
 		phis   []value
 		result value
 	}
+	lastWhy := ""
 	savedBlock, savedPrev := fr.block, fr.prevBlock
 	nTrail, nInputs, nDraws, nVars := len(ex.trail), len(ex.inputs), len(ex.draws), ex.varCount
+
+	// a side that the path condition (and enclosing guards) excludes is not speculated
+	g := ex.guardTerm()
+	if !ex.feasible(c.And(g, cond.t)) || !ex.feasible(c.And(g, c.Not(cond.t))) {
+		return false, false
+	}
 
 	runSide := func(k int) (res sideResult, ok bool) {
 		log := &specLog{seen: map[*value]bool{}}
 		i.spec = append(i.spec, log)
+		if k == 0 {
+			ex.guards = append(ex.guards, cond.t)
+		} else {
+			ex.guards = append(ex.guards, c.Not(cond.t))
+		}
 		saveDepth := i.callDepth
 		saveTop := i.top
 		defer func() {
 			i.spec = i.spec[:len(i.spec)-1]
+			ex.guards = ex.guards[:len(ex.guards)-1]
 			// roll back memory
 			res.writes = map[*value]value{}
 			for n := len(log.writes) - 1; n >= 0; n-- {
@@ -232,6 +260,10 @@ func (fr *frame) trySpeculate(instr *ssa.If, cond sym) (didMerge bool, returned 
 				switch r := r.(type) {
 				case specAbort:
 					ex.noteAbort(r.why)
+					lastWhy = r.why
+					if os.Getenv("GOSX_SPECDEBUG") != "" {
+						fmt.Fprintf(os.Stderr, "spec depth %d side %d of If at %s aborted: %s\n", len(i.spec), k, fr.fn.Prog.Fset.Position(instr.Cond.Pos()), r.why)
+					}
 					ok = false
 				case targetPanic, runtimeError:
 					ok = false // a panic on one side: fork instead
@@ -321,7 +353,12 @@ func (fr *frame) trySpeculate(instr *ssa.If, cond sym) (didMerge bool, returned 
 		if i.specFailed == nil {
 			i.specFailed = map[*ssa.If]int{}
 		}
-		i.specFailed[instr]++
+		// only failures that depend on the code's shape, not on the values at
+		// hand, count towards giving up on this site
+		if lastWhy == "leaves dominated region" || lastWhy == "control instruction" || lastWhy == "return inside side" ||
+			strings.HasPrefix(lastWhy, "external ") || lastWhy == "map update" {
+			i.specFailed[instr]++
+		}
 		// drop anything the aborted sides recorded
 		ex.trail = ex.trail[:nTrail]
 		ex.inputs = ex.inputs[:nInputs]
@@ -368,9 +405,19 @@ func (fr *frame) trySpeculate(instr *ssa.If, cond sym) (didMerge bool, returned 
 			if !okF {
 				vf = *p
 			}
-			m, ok := i.mergeValues(cond, vt, vf)
-			if !ok {
-				return fail()
+			var m value
+			switch {
+			case vt == nil:
+				m = vf // a cell not yet initialised on one side (a local of a block only that side runs)
+			case vf == nil:
+				m = vt
+			default:
+				var ok bool
+				m, ok = i.mergeValues(cond, vt, vf)
+				if !ok {
+					lastWhy = "unmergeable memory"
+					return fail()
+				}
 			}
 			cells = append(cells, cellMerge{p, m})
 		}
